@@ -82,6 +82,7 @@ package genetics
 //@   ensures [link] forall i :: 0 <= i && i < len(result0) ==> result0[i].Link.ConnectionWeight == g.Genes[i].Link.ConnectionWeight && result0[i].Link.IsRecurrent == g.Genes[i].Link.IsRecurrent
 //@   ensures [ends] forall i :: 0 <= i && i < len(result0) ==> result0[i].Link.InNode == nodeIdMap[g.Genes[i].Link.InNode.Id] && result0[i].Link.OutNode == nodeIdMap[g.Genes[i].Link.OutNode.Id]
 //@   ensures [trait] forall i :: 0 <= i && i < len(result0) ==> (g.Genes[i].Link.Trait == nil ==> result0[i].Link.Trait == nil) && (result0[i].Link.Trait != nil ==> g.Genes[i].Link.Trait != nil && result0[i].Link.Trait.Id == g.Genes[i].Link.Trait.Id)
+//@   ensures [traitFrom] forall i :: 0 <= i && i < len(result0) ==> result0[i].Link.Trait == nil || (exists t :: 0 <= t && t < len(traits) && traits[t] == result0[i].Link.Trait)
 //@   ensures [endsMapped] forall i :: 0 <= i && i < len(result0) ==> mapHas(nodeIdMap, g.Genes[i].Link.InNode.Id) && mapHas(nodeIdMap, g.Genes[i].Link.OutNode.Id)
 //@   ensures [endIds] (forall k :: mapHas(nodeIdMap, k) ==> nodeIdMap[k] != nil && nodeIdMap[k].Id == k) ==> (forall i :: 0 <= i && i < len(result0) ==> result0[i].Link.InNode != nil && result0[i].Link.OutNode != nil && result0[i].Link.InNode.Id == g.Genes[i].Link.InNode.Id && result0[i].Link.OutNode.Id == g.Genes[i].Link.OutNode.Id)
 //@   loop 1:
@@ -92,6 +93,7 @@ package genetics
 //@     invariant forall i :: 0 <= i && i <= #idx ==> genesDup[i].Link.ConnectionWeight == g.Genes[i].Link.ConnectionWeight && genesDup[i].Link.IsRecurrent == g.Genes[i].Link.IsRecurrent
 //@     invariant forall i :: 0 <= i && i <= #idx ==> genesDup[i].Link.InNode == nodeIdMap[g.Genes[i].Link.InNode.Id] && genesDup[i].Link.OutNode == nodeIdMap[g.Genes[i].Link.OutNode.Id]
 //@     invariant forall i :: 0 <= i && i <= #idx ==> (g.Genes[i].Link.Trait == nil ==> genesDup[i].Link.Trait == nil) && (genesDup[i].Link.Trait != nil ==> g.Genes[i].Link.Trait != nil && genesDup[i].Link.Trait.Id == g.Genes[i].Link.Trait.Id)
+//@     invariant forall i :: 0 <= i && i <= #idx ==> genesDup[i].Link.Trait == nil || (exists t :: 0 <= t && t < len(traits) && traits[t] == genesDup[i].Link.Trait)
 //@ func (*Genome).duplicateNodes
 //@   props C06
 //@   requires g != nil && nonNilNodes(g.Nodes) && nonNilTraits(traits)
@@ -101,6 +103,7 @@ package genetics
 //@   ensures [fresh] fresh(result0) && fresh(result1) && (forall i :: 0 <= i && i < len(result0) ==> fresh(result0[i]))
 //@   ensures [genetic] forall i :: 0 <= i && i < len(result0) ==> result0[i].Id == g.Nodes[i].Id && result0[i].NeuronType == g.Nodes[i].NeuronType && result0[i].ActivationType == g.Nodes[i].ActivationType
 //@   ensures [trait] forall i :: 0 <= i && i < len(result0) ==> (g.Nodes[i].Trait == nil ==> result0[i].Trait == nil) && (result0[i].Trait != nil ==> g.Nodes[i].Trait != nil && result0[i].Trait.Id == g.Nodes[i].Trait.Id)
+//@   ensures [traitFrom] forall i :: 0 <= i && i < len(result0) ==> result0[i].Trait == nil || (exists t :: 0 <= t && t < len(traits) && traits[t] == result0[i].Trait)
 //@   ensures [mapped] forall i :: 0 <= i && i < len(result0) ==> mapHas(result1, g.Nodes[i].Id)
 //@   ensures [mapvals] forall k :: mapHas(result1, k) ==> result1[k] != nil && fresh(result1[k]) && result1[k].Id == k
 //@   ensures [lookup] forall i :: 0 <= i && i < len(result0) ==> result1[g.Nodes[i].Id] == result0[i]
@@ -109,6 +112,7 @@ package genetics
 //@     invariant forall i :: 0 <= i && i <= #idx ==> nodesDup[i] != nil && fresh(nodesDup[i])
 //@     invariant forall i :: 0 <= i && i <= #idx ==> nodesDup[i].Id == g.Nodes[i].Id && nodesDup[i].NeuronType == g.Nodes[i].NeuronType && nodesDup[i].ActivationType == g.Nodes[i].ActivationType
 //@     invariant forall i :: 0 <= i && i <= #idx ==> (g.Nodes[i].Trait == nil ==> nodesDup[i].Trait == nil) && (nodesDup[i].Trait != nil ==> g.Nodes[i].Trait != nil && nodesDup[i].Trait.Id == g.Nodes[i].Trait.Id)
+//@     invariant forall i :: 0 <= i && i <= #idx ==> nodesDup[i].Trait == nil || (exists t :: 0 <= t && t < len(traits) && traits[t] == nodesDup[i].Trait)
 //@     invariant forall i :: 0 <= i && i <= #idx ==> mapHas(nodeIdMap, g.Nodes[i].Id)
 //@     invariant forall k :: mapHas(nodeIdMap, k) ==> nodeIdMap[k] != nil && fresh(nodeIdMap[k]) && nodeIdMap[k].Id == k && (exists j :: 0 <= j && j <= #idx && g.Nodes[j].Id == k)
 //@     invariant forall i :: 0 <= i && i <= #idx ==> nodeIdMap[g.Nodes[i].Id] == nodesDup[i]
@@ -130,6 +134,7 @@ package genetics
 //@   ensures [genes] len(result0.Genes) == len(g.Genes) && (forall i :: 0 <= i && i < len(g.Genes) ==> fresh(result0.Genes[i]) && fresh(result0.Genes[i].Link) && result0.Genes[i].InnovationNum == g.Genes[i].InnovationNum && result0.Genes[i].MutationNum == g.Genes[i].MutationNum && result0.Genes[i].IsEnabled == g.Genes[i].IsEnabled)
 //@   ensures [links] forall i :: 0 <= i && i < len(g.Genes) ==> result0.Genes[i].Link.ConnectionWeight == g.Genes[i].Link.ConnectionWeight && result0.Genes[i].Link.IsRecurrent == g.Genes[i].Link.IsRecurrent && result0.Genes[i].Link.InNode.Id == g.Genes[i].Link.InNode.Id && result0.Genes[i].Link.OutNode.Id == g.Genes[i].Link.OutNode.Id
 //@   ensures [ownNodes] forall i :: 0 <= i && i < len(g.Genes) ==> fresh(result0.Genes[i].Link.InNode) && fresh(result0.Genes[i].Link.OutNode)
+//@   ensures [ownTraits] (forall i :: 0 <= i && i < len(g.Nodes) ==> result0.Nodes[i].Trait == nil || fresh(result0.Nodes[i].Trait)) && (forall i :: 0 <= i && i < len(g.Genes) ==> result0.Genes[i].Link.Trait == nil || fresh(result0.Genes[i].Link.Trait))
 //@   ensures [nodeMapHas] forall i :: 0 <= i && i < len(g.Nodes) ==> mapHas(result0.nodeByIdMap, g.Nodes[i].Id)
 //@   ensures [nodeMap] forall i :: 0 <= i && i < len(g.Nodes) ==> result0.nodeByIdMap[g.Nodes[i].Id] == result0.Nodes[i]
 //@   ensures [geneTraits] forall i :: 0 <= i && i < len(g.Genes) ==> (g.Genes[i].Link.Trait == nil ==> result0.Genes[i].Link.Trait == nil) && (result0.Genes[i].Link.Trait != nil ==> g.Genes[i].Link.Trait != nil && result0.Genes[i].Link.Trait.Id == g.Genes[i].Link.Trait.Id)
@@ -305,9 +310,14 @@ package genetics
 //@ func (InnovationsObserver).Innovations
 //@   trusted interface contract: returns the record of this generation; no effect on genomes
 //@   pure
+// gIssued: the innovation numbers handed out so far. A draw returns a number never handed out before
+// (the implementation, an atomic counter, is covered by C03's contract on Population.NextInnovationNumber).
+//@ ghost gIssued (Array Int Bool)
 //@ func (InnovationsObserver).NextInnovationNumber
-//@   trusted interface contract: no effect on genomes
-//@   pure
+//@   trusted interface contract: every draw is a number not issued before; no effect on genomes
+//@   modifies ghost gIssued
+//@   noalloc
+//@   ensures !sel(old(gIssued), result) && sel(gIssued, result) && (forall k :: k != result ==> (sel(gIssued, k) <==> sel(old(gIssued), k)))
 //@ func (InnovationsObserver).StoreInnovation
 //@   trusted interface contract: no effect on genomes
 //@   pure
@@ -321,7 +331,7 @@ package genetics
 // the genetic content of every pre-existing gene and link, except the enabled flags
 //@ pred geneticsKept() = (forall x *Gene :: wasAllocated(x) ==> x.InnovationNum == old(x.InnovationNum) && x.MutationNum == old(x.MutationNum) && x.Link == old(x.Link)) && (forall l *network.Link :: wasAllocated(l) ==> l.ConnectionWeight == old(l.ConnectionWeight) && l.InNode == old(l.InNode) && l.OutNode == old(l.OutNode) && l.IsRecurrent == old(l.IsRecurrent) && l.Trait == old(l.Trait))
 //@ func (*Genome).mutateAddNode
-//@   props C05
+//@   props C05 C03 C16
 //@   requires genomeShape(g) && !isNilIface(innovations) && !isNilIface(nodeIdGenerator) && opts != nil
 //@   ensures [lens] result0 ==> len(g.Genes) == old(len(g.Genes)) + 2 && len(g.Nodes) == old(len(g.Nodes)) + 1
 //@   ensures [noop] !result0 ==> sameSlice(g.Genes, old(g.Genes)) && sameSlice(g.Nodes, old(g.Nodes)) && unchanged(g.Genes) && unchanged(g.Nodes)
@@ -332,6 +342,8 @@ package genetics
 //@   ensures_local [gene1] result0 ==> fresh(gene1) && gene1.IsEnabled && gene1.Link.ConnectionWeight == 1.0 && gene1.Link.InNode == old(gene.Link.InNode) && gene1.Link.OutNode == node && gene1.Link.IsRecurrent == old(gene.Link.IsRecurrent)
 //@   ensures_local [gene2] result0 ==> fresh(gene2) && gene2.IsEnabled && gene2.Link.ConnectionWeight == old(gene.Link.ConnectionWeight) && gene2.Link.InNode == node && gene2.Link.OutNode == old(gene.Link.OutNode) && !gene2.Link.IsRecurrent
 //@   ensures_local [node] result0 ==> fresh(node) && node.NeuronType == network.HiddenNeuron
+//@   ensures_local [novelNumbers] result0 && !innovationFound ==> gene1.InnovationNum != gene2.InnovationNum && sel(gIssued, gene1.InnovationNum) && !sel(old(gIssued), gene1.InnovationNum) && sel(gIssued, gene2.InnovationNum) && !sel(old(gIssued), gene2.InnovationNum)
+//@   ensures_local [matchedNumbers] result0 && innovationFound ==> gene1.InnovationNum == inn.InnovationNum && gene2.InnovationNum == inn.InnovationNum2 && node.Id == inn.NewNodeId && inn.InNodeId == old(gene.Link.InNode.Id) && inn.OutNodeId == old(gene.Link.OutNode.Id) && inn.OldInnovNum == gene.InnovationNum
 //@   ensures_local [inserted1] result0 ==> (exists a :: 0 <= a && a < len(g.Genes) && g.Genes[a] == gene1)
 //@   ensures_local [inserted2] result0 ==> (exists b :: 0 <= b && b < len(g.Genes) && g.Genes[b] == gene2)
 //@   ensures_local [insertedNode] result0 ==> (exists c :: 0 <= c && c < len(g.Nodes) && g.Nodes[c] == node)
@@ -360,10 +372,32 @@ package genetics
 //@   requires p != nil && p.mutex != nil && !sel(gLocked, p.mutex)
 //@   ensures [released] !sel(gLocked, p.mutex)
 //@ func (*Population).NextInnovationNumber
-//@   props C16
-//@   abstracts interior pointer
+//@   props C16 C03
 //@   requires p != nil
+//@   modifies Population.nextInnovNum
+//@   noalloc
+//@   ensures [monotone] result == old(p.nextInnovNum) + 1 && p.nextInnovNum == result
 //@ func (*Population).NextNodeId
-//@   props C16
-//@   abstracts interior pointer
+//@   props C16 C03
 //@   requires p != nil
+//@   modifies Population.nextNodeId
+//@   noalloc
+//@   ensures [monotone] result == old(p.nextNodeId) + 1 && p.nextNodeId == result
+
+// ---- C03: the innovation record is forgotten when the generation ends -----------------------------------
+// The three phases called here are not under contract yet; their effect is taken from the syntactic
+// modification analysis of their bodies (none of them touches Population.innovations).
+//@ func (*Population).purgeOldGeneration
+//@   reason effect derived from the body (modification analysis); no functional claim
+//@ func (*Population).purgeOrAgeSpecies
+//@   reason effect derived from the body (modification analysis); no functional claim
+//@ func (*Population).checkBestSpeciesAlive
+//@   reason effect derived from the body (modification analysis); no functional claim
+//@ func (*SequentialPopulationEpochExecutor).finalizeReproduction
+//@   props C03
+//@   exclusive
+//@   requires s != nil && pop != nil
+//@   mode nosafety
+//@   ensures [recordForgotten] result == nil ==> len(pop.innovations) == 0
+//@   loop 1:
+//@     invariant -1 <= #idx && len(pop.innovations) == 0
